@@ -327,14 +327,36 @@ pub fn families(tier: Tier) -> Vec<(Family, Vec<GameMode>)> {
 /// fixed large shapes: enormous perfect curves must fall back to bezier
 fn fixed_shapes() -> Vec<Vec<PathControlPoint>> {
     let p = |x: f32, y: f32, t: Option<PathType>| PathControlPoint { pos: Pos::new(x, y), path_type: t };
-    vec![
+    let v = vec![
         vec![p(0., 0., Some(PathType::PERFECT_CURVE)), p(100_000., 0., None), p(50_000., -50_000., None)],
         vec![p(-100_000., 0., Some(PathType::PERFECT_CURVE)), p(0., 100_000., None), p(100_000., 0., None)],
         vec![p(0., 0., Some(PathType::PERFECT_CURVE)), p(60_000., 1., None), p(120_000., 0., None)],
         vec![p(0., 0., Some(PathType::PERFECT_CURVE)), p(0.01, 0.01, None), p(0.02, 0.0, None)],
         vec![p(0., 0., Some(PathType::BEZIER)), p(100., 300., None), p(200., -300., None), p(300., 300., None),
              p(400., -300., None), p(500., 300., None), p(600., -300., None), p(700., 300., None), p(800., 0., None), p(900., 50., None)],
-    ]
+    ];
+    // many closely spaced anchors along a gentle bend: locally "flat" control polygons that are far from straight
+    let mut v = v;
+    for r in [50.0f64, 150.0, 200.0, 400.0] {
+        for n in [5usize, 6, 7, 8, 9, 10] {
+            for spacing in [2.0f64, 3.0, 4.0, 5.0, 8.0, 12.0] {
+                let step = spacing / r;
+                if step * n as f64 > 5.5 {
+                    continue;
+                }
+                for ty in [PathType::BEZIER, PathType::PERFECT_CURVE] {
+                    let pts: Vec<PathControlPoint> = (0..n)
+                        .map(|i| {
+                            let a = step * i as f64;
+                            p((r * a.sin()) as f32, (r * (1.0 - a.cos())) as f32, if i == 0 { Some(ty) } else { None })
+                        })
+                        .collect();
+                    v.push(pts);
+                }
+            }
+        }
+    }
+    v
 }
 
 pub fn replay(case: &Value) -> Vec<Violation> {
@@ -350,13 +372,16 @@ pub fn run(tier: Tier) -> i32 {
     let mut acc = Acc::new();
     run_witnesses("C17", &mut acc, &replay);
     let mut bounds = Vec::new();
-    for s in fixed_shapes() {
+    let fixed = fixed_shapes();
+    let a = par_range(fixed.len() as u64, |idx, acc| {
+        let s = &fixed[idx as usize];
         let mut bufs = CurveBuffers::default();
         acc.states += 1;
-        if let Err(p) = guarded(|| check_shape(GameMode::Osu, &s, &mut bufs, &mut acc)) {
-            acc.violation(Violation::new("panic", p, case_json(GameMode::Osu, &s)));
+        if let Err(p) = guarded(|| check_shape(GameMode::Osu, s, &mut bufs, acc)) {
+            acc.violation(Violation::new("panic", p, case_json(GameMode::Osu, s)));
         }
-    }
+    });
+    acc = acc.merge(a);
     for (fam, modes) in families(tier) {
         let total = fam.total() * modes.len() as u64;
         let t0 = std::time::Instant::now();
@@ -384,7 +409,8 @@ pub fn run(tier: Tier) -> i32 {
                (f64 de Casteljau / circumcircle arc / uniform Catmull-Rom / polyline, densely sampled to 0.005) must be below \
                bezier 0.25, arc 0.4, Catmull sampling bound (+6 in osu mode) plus an f32 slack; segment start/end at its \
                control points; collinear or >= 1000-sub-point perfect curves equal the bezier of the same points; an exactly \
-               shared joint vertex appears once. distinct_nontrivial = distinct (mode, path length, distance, end point)"
+               shared joint vertex appears once; plus fixed shapes: enormous / tiny perfect curves, a 10-point bezier, and beziers of \
+               5..10 anchors (the statement's range) spaced 2..12 px along arcs of radius 50..400. distinct_nontrivial = distinct (mode, path length, distance, end point)"
             .into(),
         bounds: json!({"families": bounds, "fixed_shapes": fixed_shapes().len()}),
         exhaustive: true,
